@@ -9,6 +9,7 @@
    hbbuffer.c are not part of this property file). *)
 From PV Require Import Base.Tac HeapBuf.HeapBufDefs HeapBuf.HeapBufPerm HeapBuf.HeapBufBits
   HeapBuf.HeapBufBufferProofs HeapBuf.HeapBufHeapProofs.
+From PV Require Gen.Gen_hibit Gen.GenEq_hibit.
 From Coq Require Import Sorted.
 Local Open Scope Z_scope.
 
@@ -149,3 +150,11 @@ Proof.
   split; [|vm_compute; repeat split; reflexivity].
   cbn [fold_left]. do 6 apply hinv_insert. exact hinv_create.
 Qed.
+
+(* translator tie: hiBit of the model is the C function hiBit of parsec/maxheap.c, translated from the
+   current C text on every run (Gen/Gen_hibit.v, tools/c2gallina.py), for every heap size below 2^31
+   (the C function returns int) *)
+Theorem C35_hiBit_is_the_code : forall n : N, (n < 2 ^ 31)%N ->
+  PV.Gen.Gen_hibit.hiBit (Z.of_N n) = Z.of_N (hiBit n).
+Proof. exact PV.Gen.GenEq_hibit.hiBit_is_the_code. Qed.
+Print Assumptions C35_hiBit_is_the_code.
